@@ -177,6 +177,15 @@ func genLengths(r *rand.Rand, profile string, p1, p2 int) *gen {
 			g.small()
 		}
 	case "tiny":
+		if r.Intn(4) > 0 {
+			// a few hundred tiny records straddling the first block boundary, behind one large record
+			g.add(20000+r.Intn(9000), "medium")
+			stop := blockSize + 300 + r.Intn(3000)
+			for g.l.size < stop && len(g.lens) < 2600 {
+				g.small()
+			}
+			break
+		}
 		n := 800 + r.Intn(1700)
 		for k := 0; k < n; k++ {
 			g.small()
